@@ -390,9 +390,29 @@ int FUNC(verify)(jwt_common_t *__cmd, const char *token)
 	config.ctx = __cmd->c.cb_ctx;
 
 	/* Let the user handle this and update config */
-        if (__cmd->c.cb && __cmd->c.cb(jwt, &config)) {
-		jwt_write_error(__cmd, "User callback returned error");
-		return 1;
+	if (__cmd->c.cb) {
+		/* The callback may look at the token, but whatever it does to
+		 * it must not change what gets verified: keep the claims as
+		 * they were parsed and put them back afterwards. */
+		json_t *claims = json_deep_copy(jwt->claims);
+		int ret;
+
+		if (claims == NULL) {
+			// LCOV_EXCL_START
+			jwt_write_error(__cmd, "Could not allocate JWT object");
+			return 1;
+			// LCOV_EXCL_STOP
+		}
+
+		ret = __cmd->c.cb(jwt, &config);
+
+		json_decref(jwt->claims);
+		jwt->claims = claims;
+
+		if (ret) {
+			jwt_write_error(__cmd, "User callback returned error");
+			return 1;
+		}
 	}
 
 	/* Callback may have changed this */
